@@ -711,19 +711,20 @@ fn copy_exec(h: &RepoHandle, dest_v1: bool, dest_comp: i32) -> String {
     }
     cfg.set_datapack_size = Some(bytesize::ByteSize(2000));
     let Some(hd) = init_repo(&cfg, dest_v1) else { return "err:dest-init".into() };
-    let run = || -> Result<(), Box<rustic_core::RusticError>> {
+    let run_n = |n: usize| -> Result<(), Box<rustic_core::RusticError>> {
         let src = open_nc(h)?.to_indexed()?;
         let dst = open_nc(&hd)?.to_indexed_ids()?;
-        src.copy(&dst, snaps.iter())
+        src.copy(&dst, snaps.iter().take(n))
     };
-    let verify = || -> Option<&'static str> {
+    let run = || run_n(snaps.len());
+    let verify_n = |n: usize| -> Option<&'static str> {
         // compare by label: every copied snapshot must read back identically in the destination
         let Some(dsnaps) = snaps_by_label(&hd) else { return Some("oracle-fail:copy-dest-snapshots") };
         let drepo = match open_nc(&hd).and_then(Repository::to_indexed) {
             Ok(r) => r,
             Err(_) => return Some("oracle-fail:copy-dest-index"),
         };
-        for s in &snaps {
+        for s in snaps.iter().take(n) {
             let want = src_digests.get(&s.id.to_hex().to_string());
             let got = dsnaps.iter().find(|d| d.label == s.label).and_then(|d| tree_digest(&drepo, d.tree).ok());
             if want.is_none() || got.as_ref() != want {
@@ -735,6 +736,18 @@ fn copy_exec(h: &RepoHandle, dest_v1: bool, dest_comp: i32) -> String {
         }
         None
     };
+    let verify = || verify_n(snaps.len());
+    // incremental copy: first only the first half of the snapshots, so that the full copy below finds a destination that already
+    // holds some of the blobs (shared sub-trees and chunks) but not all
+    if snaps.len() >= 2 {
+        let k = snaps.len() / 2;
+        if let Err(e) = run_n(k) {
+            return errkind(&e);
+        }
+        if let Some(f) = verify_n(k) {
+            return format!("{f}-partial-run");
+        }
+    }
     if let Err(e) = run() {
         return errkind(&e);
     }
